@@ -225,6 +225,42 @@ pub struct PrioProxy {
     pub priority: i32,
     pub tag: u8,
 }
+/// proxy for PatchChain in the body of remove_archive: the archive list (path reduced to a tag) and a log of the calls to
+/// rebuild_file_map (its contract - the file map is recomputed from the archive list as it is at the call - is assumed)
+pub struct ChainSlot {
+    pub path: u8,
+    pub priority: i32,
+}
+pub struct ChainProxy {
+    pub archives: Vec<ChainSlot>,
+    pub rebuilt_with_len: Option<usize>,
+}
+impl ChainProxy {
+    fn rebuild_file_map(&mut self) -> crate::Result<()> {
+        self.rebuilt_with_len = Some(self.archives.len());
+        Ok(())
+    }
+}
+/// proxy for ChainEntry in the patch application loop of read_patched_file (the loop only logs path and priority)
+pub struct ChainSlotP {
+    pub path: std::path::PathBuf,
+    pub priority: i32,
+}
+/// one-byte stand-in for MD5 in the patch application loop: the "digest" of a buffer is its first byte (0 when empty)
+fn dg(data: &[u8]) -> u8 {
+    if data.is_empty() { 0 } else { data[0] }
+}
+/// an instance of the contract of apply_patch proved by units/mpq_patch.vrs (Ok(r) only if the digest of the base equals
+/// md5_before, and then the digest of r equals md5_after; it may also refuse for any other reason)
+pub fn model_apply_patch(patch: &crate::patch::PatchFile, base: &[u8]) -> crate::Result<Vec<u8>> {
+    let refuse: bool = kani::any();
+    if refuse || dg(base) != patch.header.md5_before[0] || patch.header.md5_after[0] == 0 {
+        return Err(crate::Error::Crypto(String::new()));
+    }
+    let mut out = Vec::with_capacity(1);
+    out.push(patch.header.md5_after[0]);
+    Ok(out)
+}
 include!("verif_blocks.rs");
 
 fn sorted_desc(v: &Vec<PrioProxy>) -> bool {
@@ -273,6 +309,102 @@ fn u08_3_chain_insert_position() {
     let p: i32 = kani::any();
     let pos = blk_chain_insert_pos(&v, p);
     chain_insert_contract(pos, &v, p);
+}
+
+// remove_archive (whole body): the first entry with that path leaves the chain, every other entry keeps its place, and the
+// name -> archive map is rebuilt from the list AFTER the removal (no incremental patching of the map); an unknown path changes nothing
+// @harness unit=U08.3 props=C08 kind=bounded bound="chain length <= 4, paths reduced to one-byte tags" timeout=600 target="patch_chain.rs: remove_archive (E11 block: whole body; rebuild_file_map as an assumed contract / call log)" oracle=chain_model
+#[kani::proof]
+#[kani::unwind(7)]
+#[kani::stub(alloc::fmt::format, stub_format)]
+fn u08_3_chain_remove_rebuilds_map() {
+    let n: usize = kani::any();
+    kani::assume(n <= 4);
+    let tags: [u8; 4] = kani::any();
+    let prios: [i32; 4] = kani::any();
+    let mut v = Vec::with_capacity(4);
+    let mut i = 0;
+    while i < n {
+        v.push(ChainSlot { path: tags[i], priority: prios[i] });
+        i += 1;
+    }
+    let mut chain = ChainProxy { archives: v, rebuilt_with_len: None };
+    let path: u8 = kani::any();
+    let mut first = n;
+    let mut k = n;
+    while k > 0 {
+        k -= 1;
+        if tags[k] == path { first = k; }
+    }
+    let r = blk_chain_remove(&mut chain, path);
+    match r {
+        Ok(removed) => {
+            assert!(removed == (first < n), "true exactly when the path was in the chain");
+            if removed {
+                assert!(chain.archives.len() == n - 1, "one entry leaves");
+                assert!(chain.rebuilt_with_len == Some(n - 1), "the file map is rebuilt from the list as it is after the removal");
+                let j: usize = kani::any();
+                kani::assume(j < n - 1);
+                let src = if j < first { j } else { j + 1 };
+                assert!(chain.archives[j].path == tags[src] && chain.archives[j].priority == prios[src], "every other archive keeps its relative place");
+            } else {
+                assert!(chain.archives.len() == n && chain.rebuilt_with_len.is_none(), "an unknown path changes nothing");
+            }
+        }
+        Err(e) => { core::mem::forget(e); assert!(false, "removal does not fail"); }
+    }
+    core::mem::forget(chain);
+}
+
+// read_patched_file, application loop (the `for` statement after `patches.reverse()`; the reversal itself - a 90-byte element swap that
+// exhausts CBMC - stays outside the block, so the list is handed over in application order, lowest priority first): every patch is
+// applied through apply_patch, none skipped; so Ok(bytes) carries the digest the LAST applied = winning (highest-priority) patch
+// declares and every step started from the digest its patch expects - or the read is an error
+// @harness unit=U08.4 props=C08 kind=bounded bound="<= 3 patches over one base; MD5 replaced by a one-byte digest, apply_patch by an instance of its proved contract" timeout=900 target="patch_chain.rs: read_patched_file patch application loop (E11 block)" oracle=patch_verify
+#[kani::proof]
+#[kani::unwind(6)]
+#[kani::stub(alloc::fmt::format, stub_format)]
+fn u08_4_chain_applies_every_patch() {
+    use crate::patch::{PatchFile, PatchHeader, PatchType};
+    let n: usize = kani::any();
+    kani::assume(n <= 3);
+    let before: [u8; 3] = kani::any();
+    let after: [u8; 3] = kani::any();
+    let sizes_b: [u32; 3] = kani::any();
+    let sizes_a: [u32; 3] = kani::any();
+    let mut patches = Vec::with_capacity(3);
+    let mut i = 0;
+    while i < n {
+        let mut mb = [0u8; 16];
+        let mut ma = [0u8; 16];
+        mb[0] = before[i];
+        ma[0] = after[i];
+        let h = PatchHeader { patch_data_size: 0, size_before: sizes_b[i], size_after: sizes_a[i], md5_before: mb, md5_after: ma, patch_type: PatchType::Copy, xfrm_data_size: 0 };
+        patches.push((0usize, PatchFile { header: h, data: Vec::new() }));
+        i += 1;
+    }
+    let mut archives = Vec::with_capacity(1);
+    archives.push(ChainSlotP { path: std::path::PathBuf::new(), priority: 0 });
+    let base0: u8 = kani::any();
+    let mut base = Vec::with_capacity(1);
+    base.push(base0);
+    let r = blk_chain_apply_patches(&archives, "f", patches, base);
+    match r {
+        Ok(out) => {
+            if n == 0 {
+                assert!(out.len() == 1 && out[0] == base0, "no patch: the base itself");
+            } else {
+                assert!(dg(&out) == after[n - 1], "the bytes returned carry the digest declared by the winning (last applied, highest-priority) patch");
+                assert!(base0 == before[0], "the lowest patch was applied to a base with the digest it expects");
+                let k: usize = kani::any();
+                kani::assume(k < 2 && k + 1 < n);
+                assert!(after[k] == before[k + 1], "every patch started from the result of the one below it - none skipped");
+            }
+            core::mem::forget(out);
+        }
+        Err(e) => core::mem::forget(e),
+    }
+    core::mem::forget(archives);
 }
 
 // @harness unit=U08.3 props=C08 kind=bounded bound="chain length <= 4" timeout=600 target="patch_chain.rs: set_priority re-insertion index (E11 block)"
